@@ -177,7 +177,12 @@ C03(pre, e, post, line) ==
 \* (share value 1, no interest).  A deposit through the venue credits no more collateral than the venue minted to
 \* the obligation and takes exactly the stated tokens from the user; a withdrawal removes at least the collateral the
 \* obligation lost and hands the user no more than the venue released; positions never exceed the obligation.
-VenueOps == {"kamino_deposit", "kamino_withdraw"}
+VenueOps == {"kamino_deposit", "kamino_withdraw", "drift_deposit", "drift_withdraw"}
+VenueDeposits == {"kamino_deposit", "drift_deposit"}
+\* the venue-side vault of the bank's reserve / market
+VenueVault(s, q) ==
+  IF Has(s, "reserves") /\ Has(s.reserves, q.integ[1]) THEN s.reserves[q.integ[1]].vault
+  ELSE IF Has(s, "markets") /\ Has(s.markets, q.integ[1]) THEN s.markets[q.integ[1]].vault ELSE "none"
 C03Venue(pre, e, post, line) ==
   (e.ev \in VenueOps /\ Ok(e) /\ Has(pre.banks, e.a.bank) /\ Has(post.banks, e.a.bank) /\ Has(post, "obligations")) =>
     LET bn == e.a.bank an == e.a.acct b == pre.banks[bn] q == post.banks[bn]
@@ -189,7 +194,7 @@ C03Venue(pre, e, post, line) ==
            userTok == ROfBig(BSub(OutsideSum(post, b.mint), OutsideSum(pre, b.mint)))
            vaultMove == BSub(TokAmt(post, q.vault_liq), TokAmt(pre, b.vault_liq))
        IN /\ Chk("C03", "venue_position_change_matches_obligation_change", line,
-                 IF e.ev = "kamino_deposit" THEN RLe(dPos, ROfBig(dObl)) /\ ~BIsNeg(dObl)
+                 IF e.ev \in VenueDeposits THEN RLe(dPos, ROfBig(dObl)) /\ ~BIsNeg(dObl)
                  ELSE RLe(dPos, ROfBig(dObl)) /\ ~BIsPos(dObl),
                  [ev |-> e.ev, bank |-> bn, d_obligation |-> dObl, d_position_bits |-> dPos[1]])
           /\ Chk("C03", "venue_bank_total_follows_positions", line, dTot = dPos, [ev |-> e.ev, bank |-> bn])
@@ -198,8 +203,8 @@ C03Venue(pre, e, post, line) ==
           /\ Chk("C03", "pass_through_vault_keeps_nothing", line, BIsZero(vaultMove), [bank |-> bn, moved |-> vaultMove])
           \* tokens only move between the user and the venue's supply vault (both are "outside" the program): none appear or vanish
           /\ Chk("C03", "venue_tokens_only_move_between_user_and_venue", line, RIsZero(userTok), [bank |-> bn, ev |-> e.ev])
-          /\ (e.ev = "kamino_deposit" /\ Has(post, "reserves") /\ Has(post.reserves, q.integ[1]) /\ Has(pre.tok, post.reserves[q.integ[1]].vault)) =>
-               LET v == post.reserves[q.integ[1]].vault IN
+          /\ (e.ev \in VenueDeposits /\ VenueVault(post, q) # "none" /\ Has(pre.tok, VenueVault(post, q))) =>
+               LET v == VenueVault(post, q) IN
                Chk("C03", "venue_deposit_forwards_exactly_the_stated_tokens", line,
                    BSub(TokAmt(post, v), TokAmt(pre, v)) = e.amt, [bank |-> bn, vault |-> v])
 
